@@ -32,8 +32,72 @@ func (fr *Frame) doCall(site ssa.Instruction, c *ssa.CallCommon) *Val {
 	if fv.fn != nil {
 		return fr.callFunc(site, fv.fn, args, fv, c.Signature().Results())
 	}
+	// call through a function-typed struct field: contract keyed "<Struct>.<field>"
+	if key := fr.eng.funcFieldKey(c.Value); key != "" {
+		if ct := fr.eng.cf.Contracts[key]; ct != nil {
+			return fr.applyFieldContract(ct, key, c.Signature(), args)
+		}
+	}
 	// call through a function value of unknown identity
 	return fr.unknownCall("func value "+c.Value.Name(), c.Signature().Results(), args, true)
+}
+
+// funcFieldKey: "<Struct>.<field>" if v is a load of a function-typed field.
+func (e *Engine) funcFieldKey(v ssa.Value) string {
+	u, ok := v.(*ssa.UnOp)
+	if !ok {
+		return ""
+	}
+	fa, ok := u.X.(*ssa.FieldAddr)
+	if !ok {
+		if f, ok := v.(*ssa.Field); ok {
+			st := structOf(f.X.Type())
+			return e.typeName(f.X.Type()) + "." + st.Field(f.Field).Name()
+		}
+		return ""
+	}
+	pt := fa.X.Type().Underlying().(*types.Pointer)
+	st := structOf(pt.Elem())
+	return e.typeName(pt.Elem()) + "." + st.Field(fa.Field).Name()
+}
+
+// applyFieldContract applies a contract attached to a function-typed field
+// (the callee is user supplied: the contract is an assumption about it,
+// its requires are obligations of the caller).
+func (fr *Frame) applyFieldContract(c *Contract, key string, sig *types.Signature, args []*Val) *Val {
+	name := fr.ordName("call " + key)
+	names := map[string]*Val{}
+	for i := 0; i < sig.Params().Len() && i < len(args); i++ {
+		if n := sig.Params().At(i).Name(); n != "" {
+			names[n] = args[i]
+		}
+		names[fmt.Sprintf("a%d", i)] = args[i]
+	}
+	pre := fr.st.clone()
+	for i, rq := range c.Requires {
+		t, err := fr.evalClause(rq, &evalCtx{fr: fr, st: fr.st, old: fr.st, names: names, callee: key})
+		if err != nil {
+			fr.stale(name+"/"+clauseName("requires", i, rq), err)
+			continue
+		}
+		fr.oblige("call-requires", name+"/"+clauseName("requires", i, rq), t)
+	}
+	rv := fr.unknownCall("callback "+key, sig.Results(), args, true)
+	rn := map[string]*Val{}
+	for k, v := range names {
+		rn[k] = v
+	}
+	bindResults(rn, rv, sig.Results())
+	for _, en := range c.Ensures {
+		t, err := fr.evalClause(en, &evalCtx{fr: fr, st: fr.st, old: pre, names: rn, callee: key})
+		if err != nil {
+			fr.stale(name+"/ensures", err)
+			continue
+		}
+		fr.assume(t)
+	}
+	fr.vc.assumed["assumed contract of user-supplied callback "+key] = true
+	return rv
 }
 
 func resultVal(fr *Frame, res *types.Tuple, hint string) *Val {
@@ -46,12 +110,19 @@ func resultVal(fr *Frame, res *types.Tuple, hint string) *Val {
 	return fr.havocVal(res, hint)
 }
 
-// unknownCall havocs results (and, unless pure, every heap).
+// unknownCall: a call into code without contract or body (external package,
+// user callback, interface method of unknown dynamic type).  Results are
+// unconstrained.  If impure, everything reachable from the arguments is
+// havocked: elements of slice arguments, fields (one level, plus the
+// elements of their slices) of objects passed by pointer, contents of map
+// arguments.  Memory the callee was not handed stays unchanged: external
+// code holds no references into moss-internal objects (stated assumption).
 func (fr *Frame) unknownCall(what string, res *types.Tuple, args []*Val, impure bool) *Val {
 	if impure {
-		fr.vc.abstracted("call to " + what + ": results unconstrained, all heaps havocked")
-		for _, h := range sortedKeys(fr.vc.heapSort) {
-			fr.vc.heapHavoc(fr.st, h)
+		fr.vc.abstracted("call to " + what + ": results unconstrained, memory reachable from the arguments havocked")
+		fr.vc.assumed["code without a contract (external packages, user callbacks) only modifies memory reachable from its arguments"] = true
+		for _, a := range args {
+			fr.havocReachable(a, 1)
 		}
 		a := fr.vc.fresh("alloc", sInt)
 		fr.vc.fact(app("<=", fr.st.alloc, a))
@@ -60,6 +131,82 @@ func (fr *Frame) unknownCall(what string, res *types.Tuple, args []*Val, impure 
 		fr.vc.abstracted("call to " + what + ": results unconstrained")
 	}
 	return resultVal(fr, res, "res_"+sanitize(what))
+}
+
+func (fr *Frame) havocReachable(a *Val, depth int) {
+	if a == nil || a.typ == nil {
+		return
+	}
+	vc := fr.vc
+	if a.fields != nil {
+		for _, f := range a.order {
+			fr.havocReachable(a.fields[f], depth)
+		}
+		return
+	}
+	if a.loc != nil && a.t == "" {
+		// interior pointer: the pointed-to location
+		for _, leaf := range leafLocs(a.loc) {
+			name := vc.registerHeap(leaf)
+			h := vc.heapGet(fr.st, name)
+			nv := fr.vc.fresh("hv", sortOf(leaf.typ))
+			switch leaf.kind {
+			case locField:
+				vc.heapSet(fr.st, name, sto(h, leaf.ref, nv))
+			case locElem:
+				vc.heapSet(fr.st, name, sto(h, leaf.ref, sto(sel(h, leaf.ref), leaf.idx, nv)))
+			case locGlobal:
+				vc.heapHavoc(fr.st, name)
+			}
+		}
+		return
+	}
+	switch t := a.typ.Underlying().(type) {
+	case *types.Slice:
+		for _, leaf := range fr.elemLeaves(t.Elem()) {
+			name := vc.registerHeap(leaf)
+			h := vc.heapGet(fr.st, name)
+			nv := fr.vc.fresh("hv_arr", arrSort(sortOf(leaf.typ)))
+			vc.heapSet(fr.st, name, ite(eq(sArr(a.t), "0"), h, sto(h, sArr(a.t), nv)))
+		}
+	case *types.Pointer:
+		if structOf(t.Elem()) == nil || isSyncType(t.Elem()) {
+			return
+		}
+		base := &Loc{kind: locField, ref: a.t, root: fr.eng.fieldRoot(t.Elem()), typ: t.Elem()}
+		for _, leaf := range leafLocs(base) {
+			if sortOf(leaf.typ) == "" {
+				continue
+			}
+			name := vc.registerHeap(leaf)
+			if fr.eng.immutable[name] {
+				continue
+			}
+			h := vc.heapGet(fr.st, name)
+			var old *Val
+			if depth > 0 {
+				if _, isSlice := leaf.typ.Underlying().(*types.Slice); isSlice {
+					old = &Val{t: sel(h, a.t), sort: sSlc, typ: leaf.typ}
+				}
+			}
+			nv := fr.vc.fresh("hv", sortOf(leaf.typ))
+			vc.heapSet(fr.st, name, ite(eq(a.t, "0"), h, sto(h, a.t, nv)))
+			if old != nil {
+				fr.havocReachable(old, depth-1)
+			}
+		}
+	case *types.Map:
+		mh := fr.mapHeaps(a.typ)
+		for _, n := range []string{mh.dom, mh.val, mh.ln} {
+			if _, ok := vc.heapSort[n]; !ok {
+				continue
+			}
+			h := vc.heapGet(fr.st, n)
+			inner := vc.heapSort[n][len("(Array Int ") : len(vc.heapSort[n])-1]
+			nv := fr.vc.fresh("hv_map", inner)
+			vc.heapSet(fr.st, n, ite(eq(a.t, "0"), h, sto(h, a.t, nv)))
+		}
+	}
 }
 
 func (fr *Frame) onStack(fn *ssa.Function) bool {
@@ -81,6 +228,11 @@ func (fr *Frame) callFunc(site ssa.Instruction, fn *ssa.Function, args []*Val, f
 	}
 	if len(fn.Blocks) > 0 && fn.Pkg == fr.eng.pkg && fr.depth < maxInlineDepth && !fr.onStack(fn) {
 		return fr.inline(fn, args, fnv)
+	}
+	if len(fn.Blocks) > 0 && fn.Pkg == fr.eng.pkg && fr.onStack(fn) && fr.vc.onlyKinds != nil {
+		// thin contract: a recursive instance is the code already being checked; its effects are havocked
+		fr.vc.abstracted("recursive call to " + key + " inside a thin contract: effects havocked, call sites covered by the outer instance")
+		return fr.unknownCall("recursive "+key, res, args, true)
 	}
 	if len(fn.Blocks) > 0 && fn.Pkg == fr.eng.pkg && fr.onStack(fn) {
 		o := fr.oblige("stale", fr.ordName("call "+key+"/needs-contract"), "false")
@@ -233,6 +385,9 @@ func (fr *Frame) havocForCall(c *Contract, fn *ssa.Function, key string, names m
 			for _, h := range sortedKeys(vc.heapSort) {
 				wholeHeap[h] = true
 			}
+			continue
+		}
+		if m.Src == "nothing" {
 			continue
 		}
 		locs, err := fr.evalModifies(m, &evalCtx{fr: fr, st: pre, old: pre, names: names, callee: key})
@@ -646,4 +801,27 @@ func (fr *Frame) doClose(ch *Val) {
 // checkGuarded is the hook for guarded-by obligations (see locks.go).
 func (fr *Frame) checkGuarded(l *Loc, write bool) {
 	fr.eng.guardedCheck(fr, l, write)
+}
+
+// closureCreated: a closure whose contract says `attr at-creation` must have
+// its (parameter-free) preconditions established where it is created, since
+// it may run at any later time.
+func (fr *Frame) closureCreated(mc *ssa.MakeClosure, v *Val) {
+	fn := mc.Fn.(*ssa.Function)
+	key := fr.eng.keyOf(fn)
+	c := fr.eng.cf.Contracts[key]
+	if c == nil {
+		return
+	}
+	if _, ok := c.Attrs["at-creation"]; !ok {
+		return
+	}
+	for i, rq := range c.Requires {
+		t, err := fr.evalClause(rq, &evalCtx{fr: fr, st: fr.st, old: fr.st, names: map[string]*Val{}, callee: key})
+		if err != nil {
+			fr.stale("closure "+key+"/"+clauseName("requires", i, rq), err)
+			continue
+		}
+		fr.oblige("call-requires", fr.ordName("closure "+key)+"/"+clauseName("requires", i, rq), t)
+	}
 }
